@@ -1,4 +1,5 @@
 #![allow(dead_code)]
+mod batch;
 mod drive;
 mod explore;
 mod fw;
